@@ -171,6 +171,12 @@ Theorem C17_secure_no_scheme_downgrade_later : forall chain cur l e,
 Proof. exact no_scheme_downgrade_later. Qed.
 Print Assumptions C17_secure_no_scheme_downgrade_later.
 
+(* and no chain makes the client connect more than clientMaxRedirects + 1 times (fix for C12) *)
+Theorem C17_secure_redirects_bounded : forall chain cur l e,
+  follow cur chain = (l, e) -> nlen l <= sec_max_redirects + 1.
+Proof. exact redirects_bounded. Qed.
+Print Assumptions C17_secure_redirects_bounded.
+
 (* ---------------- the wire, under the ideal cipher ---------------- *)
 
 Theorem C17_secure_unprotect_iff_roc : forall ks mac hdr_ssrc hdr_seq,
@@ -216,38 +222,38 @@ Theorem C17_secure_keys_never_in_clear : forall sc tr,
 Proof. exact keys_never_in_clear. Qed.
 Print Assumptions C17_secure_keys_never_in_clear.
 
-(* ---------------- the remote-SSRC latch in front of decryption ---------------- *)
+(* ---------------- the remote-SSRC check in front of decryption (after fix e33be43) ---------------- *)
 
-(* whatever does not decode (altered / forged) is never delivered *)
+(* whatever does not decode (altered / forged) is never delivered and never sets the expected SSRC *)
 Theorem C17_secure_latch_never_delivers_undecodable : forall secure l ssrc,
   snd (filter_step secure l ssrc false) <> EDelivered.
 Proof. exact latch_never_delivers_undecodable. Qed.
 Print Assumptions C17_secure_latch_never_delivers_undecodable.
 
-(* finding ssrc-latch-unauthenticated: the latch is written before authentication, so ONE undecodable
-   packet with another SSRC arriving first makes the receiver refuse all genuine packets ... *)
-Theorem C17_secure_latch_poisoned_refuted :
-  filter_run true (mkLatch false 0) [(2, false); (1, true); (1, true); (1, true)]
-  = [EDecodeError; EWrongSSRC; EWrongSSRC; EWrongSSRC].
-Proof. exact latch_poisoned_refuted. Qed.
-Print Assumptions C17_secure_latch_poisoned_refuted.
+Theorem C17_secure_latch_unchanged_by_undecodable : forall secure l ssrc,
+  fst (filter_step secure l ssrc false) = l.
+Proof. exact latch_unchanged_by_undecodable. Qed.
+Print Assumptions C17_secure_latch_unchanged_by_undecodable.
 
-(* ... for the rest of the session *)
-Theorem C17_secure_latch_poison_permanent : forall v g pkts,
-  v <> g -> Forall (genuine g) pkts ->
-  filter_run true (mkLatch true v) pkts = map (fun _ => EWrongSSRC) pkts.
-Proof. exact latch_poison_permanent. Qed.
-Print Assumptions C17_secure_latch_poison_permanent.
-
-(* strongest true statement for the code as it is: when the first packet reaching the format carries
-   the sender's SSRC, every genuine packet is delivered and every undecodable one rejected, in any
-   interleaving.  (ProofsFixed.v proves the unconditional statement for the repaired latch.) *)
-Theorem C17_secure_latch_partial : forall secure g ok0 pkts,
+(* full statement (replaces latch_partial / latch_poisoned_refuted of the pinned tree): when only the
+   sender's packets decode (ideal cipher), exactly those are delivered -- for every interleaving with
+   altered or forged packets, whatever arrives first *)
+Theorem C17_secure_latch_delivers_exactly_genuine : forall secure g pkts l,
+  latch_inv g l ->
   Forall (fun p => snd p = true -> fst p = g) pkts ->
-  filter_run secure (mkLatch false 0) ((g, ok0) :: pkts)
-  = (if ok0 then EDelivered else EDecodeError) :: map (latch_expected secure g) pkts.
-Proof. exact latch_first_genuine. Qed.
-Print Assumptions C17_secure_latch_partial.
+  Forall2 (fun p e => e = EDelivered <-> snd p = true) pkts (filter_run secure l pkts).
+Proof. exact latch_delivers_exactly_genuine. Qed.
+Print Assumptions C17_secure_latch_delivers_exactly_genuine.
+
+(* non-vacuity: the empty latch satisfies the invariant; the history that silenced the old code
+   (fixed finding ssrc-latch-before-auth) now delivers every genuine packet *)
+Example C17_example_latch :
+  latch_inv 1 (mkLatch false 0) /\
+  filter_run true (mkLatch false 0) [(2, false); (1, true); (1, true); (1, true)]
+  = [EDecodeError; EDelivered; EDelivered; EDelivered] /\
+  filter_run_old true (mkLatch false 0) [(2, false); (1, true); (1, true); (1, true)]
+  = [EDecodeError; EWrongSSRC; EWrongSSRC; EWrongSSRC].
+Proof. split; [apply latch_inv_empty|split; reflexivity]. Qed.
 
 (* ---------------- non-vacuity ---------------- *)
 
